@@ -18,6 +18,10 @@ SUBJECTS = [
     ("{b:(1,2)}", lambda: Map(["b"], [Tuple([Int(1), Int(2)])])),
     ("1..3", lambda: Range(Int(1), Int(3))),
     ("(null,null)", lambda: Tuple([Null(), Null()])),
+    ("((1,2),(3,4))", lambda: Tuple([Tuple([Int(1), Int(2)]), Tuple([Int(3), Int(4)])])),
+    ("(9,8,(1,2),3)", lambda: Tuple([Int(9), Int(8), Tuple([Int(1), Int(2)]), Int(3)])),
+    ("[(5,6),(1,2),3]", lambda: List([Tuple([Int(5), Int(6)]), Tuple([Int(1), Int(2)]), Int(3)])),
+    ("(7,{a:1},3)", lambda: Tuple([Int(7), Map(["a"], [Int(1)]), Int(3)])),
     ("(2,1)", lambda: Tuple([Int(2), Int(1)])),
 ]
 
@@ -53,6 +57,10 @@ PATTERNS = [
     # map patterns with ignored rebinds: the key must still be present
     lambda: PMap(["a"], ["_"]), lambda: PMap(["zz"], ["_"]), lambda: PMap(["zz", "a"], ["_skip", "q"]),
     lambda: PMap(["a", "zz"], ["q", "_"]),
+    # nested patterns after a leading ellipsis (counted from the end of the container)
+    lambda: PTup([PTup([PId("a"), PId("b")]), PId("z")], "first", ""), lambda: PTup([PTup([PId("a"), PId("b")]), PId("z")], "first", "rs"),
+    lambda: PTup([PId("x"), PTup([PId("a"), PId("b")])], "first", ""), lambda: PTup([PTup([PId("a"), PId("b")])], "first", "rs"),
+    lambda: PTup([PMap(["a"]), PId("z")], "first", ""), lambda: PTup([PTup([PId("a")], "last", ""), PId("z")], "first", ""),
 ]
 
 
@@ -105,6 +113,24 @@ def match_matrix(rng=None, sample=None):
         yield Block(([Asg("r", Str("stale"))] if (si + pi) % 2 == 0 else []) +
                     [Asg(sv, SUBJECTS[si][1]()), Asg("r", Match(Id(sv), arms, e)), Core("print", [Id("r")])] +
                     ([Core("print", [Id(sv)])] if sv == "s" else []) + [Id("r")])
+
+
+def arg_pattern_matrix(rng=None, sample=None):
+    """Every container pattern as the unpacking pattern of a function argument (guide: Unpacking Arguments), against every
+    subject: the names it binds are returned; a container that does not fit the pattern is an error."""
+    def has_lit(p):
+        return p["p"] == "lit" or any(has_lit(x) for x in p.get("xs", []))
+    # (literals are match patterns only: an argument pattern with a literal is a syntax error)
+    cases = [(si, pi) for si in range(len(SUBJECTS)) for pi in range(len(PATTERNS)) if PATTERNS[pi]()["p"] in ("tup", "map") and not has_lit(PATTERNS[pi]())]
+    if sample is not None and rng is not None and len(cases) > sample:
+        cases = rng.sample(cases, sample)
+    for si, pi in cases:
+        reset_ids()
+        pat = PATTERNS[pi]()
+        names = pat_names(pat)
+        fn = Fn([Param("arg0", "pat", pat=pat), Param("last")], Block([Tuple([Str("HIT")] + [Id(n) for n in names] + [Id("last")])]))
+        yield Block([Asg("f", fn), Asg("s", SUBJECTS[si][1]()),
+                     Try(Block([Core("print", [App(Id("f"), [Id("s"), Int(99)])])]), [("e", "", Block([Core("print", [Str("error")])]))]), Str("end")])
 
 
 def match_alternatives(rng=None, sample=None):
